@@ -9,6 +9,16 @@ import traceback
 from ..common import PY, VERIF, child_env
 
 
+_NOTE = {"path": None}
+
+
+def note_inputs(d):
+    """record the concrete inputs of the path about to be executed (crash attribution)"""
+    if _NOTE["path"]:
+        with open(_NOTE["path"], "w") as f:
+            json.dump(d, f, default=str)
+
+
 class Case:
     """One solver question.
     base     : list of z3 constraints over the inputs (the bound)
@@ -40,12 +50,17 @@ class SX:
         t0 = time.time()
         n = self.parts[ctx.tier]
         procs = []
+        notes = []
         for i in range(n):
             cmd = [PY, "-m", "vf.sx.ob", self.module, self.func, ctx.tier, f"{i}/{n}", str(self.timeout[ctx.tier]), ctx.prop]
+            env = child_env()
+            note = os.path.join(ctx.workdir, f"{self.name}.{i}.note")
+            env["VF_NOTE_FILE"] = note
+            notes.append(note)
             procs.append(subprocess.Popen(cmd, stdout=subprocess.PIPE, stderr=subprocess.PIPE, text=True,
-                                          env=child_env(), cwd=VERIF))
+                                          env=env, cwd=VERIF))
         parts = []
-        for p in procs:
+        for p, note in zip(procs, notes):
             try:
                 out, err = p.communicate(timeout=self.timeout[ctx.tier] * 2 + 300)
             except subprocess.TimeoutExpired:
@@ -57,8 +72,39 @@ class SX:
             for l in out.splitlines():
                 if l.startswith("SXRESULT "):
                     rec = json.loads(l[len("SXRESULT "):])
+            if rec is None and p.returncode is not None and p.returncode < 0 and os.path.exists(note):
+                # the interpreter died (signal) while executing the noted inputs: replay them in a fresh process
+                rec = self._crash(note, p.returncode)
             parts.append(rec if rec is not None else dict(error=f"worker rc={p.returncode}: {err[-800:]}"))
         return fold(self, parts, time.time() - t0)
+
+
+def _crash_replay(module, func, inputs):
+    code = ("import sys, json, importlib\n"
+            "m = importlib.import_module(sys.argv[1]); res = getattr(m, sys.argv[2])('quick')\n"
+            "cases = res[0] if isinstance(res, tuple) else res\n"
+            "ok, obs = cases[0].replay(json.loads(sys.argv[3])); print('CR ' + json.dumps([ok, str(obs)[:300]]))\n")
+    p = subprocess.run([PY, "-c", code, module, func, json.dumps(inputs)], capture_output=True, text=True,
+                       env=child_env(), cwd=VERIF, timeout=600)
+    for l in p.stdout.splitlines():
+        if l.startswith("CR "):
+            return json.loads(l[3:])
+    return [False, f"interpreter died rc={p.returncode}"]
+
+
+def _sx_crash(self, note, rc):
+    try:
+        inputs = json.load(open(note))
+    except Exception:
+        return None
+    ok, obs = _crash_replay(self.module, self.func, inputs)
+    if ok:
+        return dict(error=f"worker died (rc={rc}) but the noted inputs replay fine: {inputs}")
+    return dict(cases=1, violation=dict(case="interpreter terminated", inputs=inputs, observed=f"worker rc={rc}; replay: {obs}",
+                                        symbolic="process died while executing these inputs"))
+
+
+SX._crash = _sx_crash
 
 
 def fold(ob, parts, wall):
@@ -239,6 +285,7 @@ def run_cases(cases, total_timeout):
 
 def main():
     module, func, tier, part, timeout, prop = sys.argv[1:7]
+    _NOTE["path"] = os.environ.get("VF_NOTE_FILE")
     i, n = (int(x) for x in part.split("/"))
     try:
         import importlib
